@@ -421,7 +421,9 @@ pub fn boundary_lits(e: &str) -> Vec<String> {
         "num" => vec!["0", "1", "2", "3", "0.5", ".5", "2.5", "20", "21", "63", "4294967296", "3037000500", "9007199254740992", "9007199254740993",
                       "9223372036854775808.", "18446744073709551616.", "9007199254740993.",
                       "4611686018427387904", "9223372036854775807", "9223372036854775806.", "0.1", "1.5"],
-        "f64" => vec!["0", "1", "2", "3", "0.5", "0.1", "0.2", "2.5", "9007199254740992", "9007199254740993", "4.9406564584124654e-324", "1.7976931348623157e308",
+        "f64" => vec!["0", "1", "2", "3", "0.5", "0.1", "0.2", "2.5", "9007199254740992", "9007199254740993",
+                      // the neighbours of the rounding ties, and odd whole numbers above 2^52 (x + 0.5 is itself rounded there)
+                      "0.49999999999999994", "0.5000000000000001", "2.4999999999999996", "4503599627370497", "4503599627370495.5", "4.9406564584124654e-324", "1.7976931348623157e308",
                       "9223372036854775808", "9223372036854774784", "18446744073709551616", "4294967296",
                       "179769313486231570000000000000000000000000000000000000000000000000000000000000000000000000000000000000000000000000000000000000000000000000000000000000000000000000000000000000000000000000000000000000000000000000000000000000000000000000000000000000000000000000000000000000000000000000000000000000000000000",
                       "0.000000000000000000000000000000000000000000000000000000000000000000000000000000000000000000000000000000000000000000000000000000000000000000000000000000000000000000000000000000000000000000000000000000000000000000000000000000000000000000000000000000000000000000000000000000000000000000000000000000000000000000000000000000005",
